@@ -372,11 +372,13 @@ def build_configs(tier, seed):
             for name in NAMES:
                 if name in ('mul-mm', ):
                     continue
-                if name in ('identity', 'inner') and len(T) != 2:
-                    continue
+                if name in ('identity', 'inner', 'div', 'curl') and len(T) != 2:
+                    continue          # helpers acting on FIELDS dispatch on the two trailing axes (cells x points) every field carries
                 cfgs.append(dict(name='np/%s/n=%d/trail=%s' % (name, n, 'x'.join(map(str, T))), fn=helper_config,
                                  kw=dict(variant='np', name=name, n=n, trail=T)))
             for name in JAX_NAMES:
+                if name in ('div',) and len(T) != 2:
+                    continue
                 cfgs.append(dict(name='jax/%s/n=%d/trail=%s' % (name, n, 'x'.join(map(str, T))), fn=helper_config,
                                  kw=dict(variant='jax', name=name, n=n, trail=T)))
             for name in ('det', 'dot', 'ddot', 'prod', 'mul', 'trace', 'transpose', 'eye'):
